@@ -104,4 +104,66 @@ theorem printPlainE_total (cfg : Cfg) (hc : CfgRepaired cfg) (po : PrintOpts)
   simp only [hs, bind, Except.bind]
   exact ⟨_, rfl⟩
 
+/-! ## `Text.__rich_measure__` never reaches `max()` of an empty sequence -/
+
+theorem splitLinesPy_ne_nil : ∀ (s cur : List Char), s ≠ [] ∨ cur ≠ [] → splitLinesPy s cur ≠ []
+  | [], cur, h => by
+    rcases h with h | h
+    · exact absurd rfl h
+    · simp [splitLinesPy, h]
+  | c :: r, cur, _ => by
+    unfold splitLinesPy
+    split
+    · simp
+    · exact splitLinesPy_ne_nil r (c :: cur) (Or.inr (by simp))
+
+theorem splitWords_ne_nil (p : Char → Bool) : ∀ (s cur : List Char), (cur ≠ [] ∨ ∃ c ∈ s, p c = false) →
+    splitWords p s cur ≠ []
+  | [], cur, h => by
+    rcases h with h | ⟨c, hc, _⟩
+    · simp [splitWords, h]
+    · cases hc
+  | c :: r, cur, h => by
+    unfold splitWords
+    by_cases hp : p c = true
+    · simp only [hp, if_true]
+      rcases h with h | ⟨d, hd, hpd⟩
+      · simp [h]
+      · rcases List.mem_cons.mp hd with rfl | hd
+        · rw [hp] at hpd; cases hpd
+        · split
+          · exact splitWords_ne_nil p r [] (Or.inr ⟨d, hd, hpd⟩)
+          · simp
+    · simp only [hp, Bool.false_eq_true, if_false]
+      exact splitWords_ne_nil p r (c :: cur) (Or.inl (by simp))
+
+theorem pyMax_ok : ∀ l : List Nat, l ≠ [] → ∃ m, pyMax l = .ok m
+  | [], h => absurd rfl h
+  | x :: xs, _ => ⟨_, rfl⟩
+
+/-- **text_measure_total.**  `Text.__rich_measure__` never raises — for every text, empty, blank or not — PROVIDED the
+blank-text guard strips every character `str.split()` splits on (in rich both are Python's `str.isspace` class). -/
+theorem textRichMeasureE_total (guard split : Char → Bool) (h : ∀ c, split c = true → guard c = true) (cw : Char → Nat)
+    (plain : List Char) : ∃ m, textRichMeasureE guard split cw plain = .ok m := by
+  unfold textRichMeasureE
+  by_cases hall : plain.all guard = true
+  · simp only [hall, if_true]; exact ⟨_, rfl⟩
+  · simp only [hall, Bool.false_eq_true, if_false]
+    have hex : ∃ c ∈ plain, split c = false := by
+      apply Classical.byContradiction
+      intro hno
+      apply hall
+      rw [List.all_eq_true]
+      intro c hc
+      cases hs : split c with
+      | true => exact h c hs
+      | false => exact absurd ⟨c, hc, hs⟩ hno
+    have hne : plain ≠ [] := by obtain ⟨c, hc, _⟩ := hex; intro h0; rw [h0] at hc; cases hc
+    obtain ⟨a, ha⟩ := pyMax_ok ((splitLinesPy plain []).map (cellLen cw))
+      (by simpa using splitLinesPy_ne_nil plain [] (Or.inl hne))
+    obtain ⟨b, hb⟩ := pyMax_ok ((splitWords split plain []).map (cellLen cw))
+      (by simpa using splitWords_ne_nil split plain [] (Or.inr hex))
+    simp only [ha, hb, bind, Except.bind]
+    exact ⟨_, rfl⟩
+
 end RichModel.Totality
